@@ -357,11 +357,11 @@ def _curved(case, rec):
 
 def clauses():
     return [
-        Clause("polygons", _poly2_case(), _polygon, quick=800, thorough=20000, rule="Polygon / ConvexPolygon",
+        Clause("polygons", _poly2_case(), _polygon, quick=3200, thorough=20000, rule="Polygon / ConvexPolygon",
                floors={"incircle:absent": 0.1, "circumcircle:absent": 0.15, "incircle:exists": 0.1, "circumcircle:exists": 0.15, "quadrilateral": 0.08}),
-        Clause("polyhedra", _poly3_case(), _polyhedron, quick=500, thorough=12000, rule="Polyhedron / ConvexPolyhedron",
+        Clause("polyhedra", _poly3_case(), _polyhedron, quick=2000, thorough=12000, rule="Polyhedron / ConvexPolyhedron",
                floors={"insphere:absent": 0.1, "circumsphere:absent": 0.15, "insphere:exists": 0.05, "circumsphere:exists": 0.1}),
-        Clause("curved", _curved_case(), _curved, quick=600, thorough=10000, rule="Circle/Ellipse/Sphere/Ellipsoid", floors={}),
+        Clause("curved", _curved_case(), _curved, quick=2400, thorough=10000, rule="Circle/Ellipse/Sphere/Ellipsoid", floors={}),
     ]
 
 
